@@ -319,6 +319,10 @@ def handleLD (s : CSt) (tag roots : String) (res : List String) : CSt :=
   | ["ok", l] =>
     let got := if l == "-" then [] else l.splitOn ","
     let s := s.spec "C12" "noPanic" true
+    -- C12, second sentence: the undecodable blocks are skipped and everything reachable through the
+    -- good ones is loaded (the expectation is computed from the stored good blocks only)
+    let s := s.spec "C12" "loadsRemainingHistory" (expect.all (fun h => got.contains h))
+      s!"load {tag}: {(expect.filter (fun h => !got.contains h)).length} of {expect.length} reachable good entries missing"
     if got == expect then s else s.diff s!"load:{tag}" (",".intercalate expect) l
   | _ => s.diff s!"load:{tag}" "?" (" ".intercalate res)
 where
